@@ -14,7 +14,9 @@ def c05():
               "exhaustive single-fault sweep over every write position of small fixed scenarios. Two closing phases (mutually exclusive): a late "
               "burst (destination held in a callback, tp_shutdown(), up to 1900 accepted sends, release: all must be delivered) and a "
               "shutdown race (an external thread keeps sending while tp_shutdown() is called, every second send held right after its queue "
-              "write, optionally one send held between the state test and the write; relaxed oracle: failure => never ran, never twice). Non-trivial: >=2 senders interleave on one "
+              "write, optionally one send held between the state test and the write; relaxed oracle: failure => never ran, never twice). Also: pool "
+              "settings flags (BIND2CPU, CLOEXEC), one send whose argument is the callback's own address, self-sends issued after the thread's stop "
+              "message, and the async-operation helpers (allocate on one thread or outside, complete on another). Non-trivial: >=2 senders interleave on one "
               "destination, or a fault/queue-full/failed send occurred, or a direct-call path was taken, or the virtual thread was a destination "
               "with >=2 threads, or a late burst / shutdown race ran. distinct = distinct scenario fingerprints."),
         assumptions=["for sends racing with tp_shutdown() 'accepted => delivered' is not asserted (known finding c05_send_accepted_after_last_queue_look_is_lost)",
